@@ -25,6 +25,7 @@ class FakeProcess:
         self.triggered = False
         self.value = None
         self.failed = None
+        self.callbacks = []      # processes waiting for this one to end
 
     @property
     def is_alive(self):
@@ -83,17 +84,35 @@ class FakeEnv:
         self._now = t
         self.steps += 1
         try:
-            v = p.gen.send(None)
+            v = p.gen.send(getattr(p, "_send", None))
         except StopIteration as e:
-            p.triggered = True
-            p.value = e.value
+            self.on_end(p, e.value)
             return
         except BaseException as e:
             p.triggered = True
             p.failed = e
             raise
+        self.after_yield(p, v)
+
+    def on_end(self, p, value):
+        p.triggered = True
+        p.value = value
+        for w in p.callbacks:
+            w._send = value
+            self._push(self._now, self.NORMAL, w)
+        p.callbacks = []
+
+    def after_yield(self, p, v):
+        p._send = None
         if isinstance(v, FakeTimeout):
             self._push(self._now + v._delay, self.NORMAL, p)
+        elif isinstance(v, FakeProcess):
+            # waiting for another process: resumed (NORMAL, at that time) when it ends
+            if v.triggered:
+                p._send = v.value
+                self._push(self._now, self.NORMAL, p)
+            else:
+                v.callbacks.append(p)
         else:
             raise TypeError("process yielded %r" % (v,))
 
